@@ -210,8 +210,13 @@ def observe(cfg, want):
             return xs2.ravel().copy()
         v_ext = P.CellVariable(c.m, old.copy(), bc_with(cfg, "c", c.m, d))
         P.solvePDE(v_ext, terms_for(v_ext, g1), externalsolver=recording)
-        obs["Mext"] = opsdrive.mat_entries(seen["M"], c.dims)
-        obs["Rext"] = opsdrive.vec_nested(seen["b"], c.dims)
+        obs["flags"]["external_called"] = "M" in seen
+        if "M" in seen:
+            obs["Mext"] = opsdrive.mat_entries(seen["M"], c.dims)
+            obs["Rext"] = opsdrive.vec_nested(seen["b"], c.dims)
+        else:       # the solver that was passed in was never called: nothing to compare, the clause fails
+            obs["Mext"] = opsdrive.Entries()
+            obs["Rext"] = opsdrive.vec_nested(np.zeros(int(np.prod(full))), c.dims)
         obs["r_ext"] = lift_sol(np.asarray(v_ext.value))
         # algebraically identical presentations of the term list
         variants = {}
@@ -244,7 +249,11 @@ def observe(cfg, want):
         for a in range(d):
             for s_ in SIDES[a]:
                 side = getattr(v_h.BCs, s_)
-                side.c[...] = to_float_array(cfg["bc"][s_]["c2"]).reshape(side.c.shape)
+                newc = to_float_array(cfg["bc"][s_]["c2"]).reshape(side.c.shape)
+                if cfg_pick(cfg) % 2:
+                    side.c = newc              # assignment through the property (every side of this episode)
+                else:
+                    side.c[...] = newc         # slice assignment into the tracked array
         # (no assignment to .value in between: only the boundary data changed)
         P.solvePDE(v_h, terms_for(v_h, derive_gamma(xs2, interior(xs))))
         obs["r_history"] = lift_sol(np.asarray(v_h._value))
